@@ -55,11 +55,11 @@ def shards(tier, seed):
     return out
 
 
-def jumps_or_empty(tr):
+def jumps_or_empty(tr, m=0):
     from gemdat.jumps import Jumps
 
     try:
-        return impl.jump_rows(Jumps(tr).data)
+        return impl.jump_rows(Jumps(tr, minimal_residence=m).data)
     except ValueError as e:
         if 'No jumps found' in str(e):
             return []
@@ -139,6 +139,23 @@ def check_trace(trace, S):
             continue
         if any(o < 0 for o in offsets) or offsets != sorted(offsets):
             viols.append(('split-offsets-not-chronological', f'n_parts={n} offsets={offsets}'))
+        # with a minimal residence the parts of Jumps.split must use the same setting as the whole
+        has_shell = any(x != 0 and x % 2 == 0 for row in trace for x in row)
+        for m in ((3,) if has_shell and n <= 3 else ()):
+            try:
+                whole_m = jumps_or_empty(tr, m)
+                if whole_m:
+                    from gemdat.jumps import Jumps
+
+                    pm = [p.n_jumps for p in Jumps(tr, minimal_residence=m).split(n)]
+                    own = [len(jumps_or_empty(p, m)) for p in parts]
+                    if pm != own or sum(pm) > len(whole_m):
+                        viols.append(('jumps-split-ignores-minimal-residence', f'n_parts={n} m={m}: Jumps.split counts={pm}, per-part counts with m={own}, whole={len(whole_m)}'))
+            except ValueError as e:
+                if 'No jumps found' not in str(e):
+                    viols.append(('jumps-split-raise-ValueError', f'n_parts={n} m={m}: {e}'))
+            except Exception as e:  # noqa: BLE001
+                viols.append((f'jumps-split-raise-{type(e).__name__}', f'n_parts={n} m={m}: {e}'))
         # per-part jump counts
         try:
             counts = [len(jumps_or_empty(p)) for p in parts]
